@@ -91,7 +91,8 @@ def render(ir, module_name: str, eq: bool = True) -> str:
     if ir.get("extras"):
         lines += EXTRAS.splitlines()
     for c in ir["classes"]:
-        base = f"({names[c['base']]})" if c["base"] is not None else ""
+        bases = [names[b] for b in (c["base"], c.get("base2")) if b is not None]
+        base = f"({', '.join(bases)})" if bases else ""
         lines.append("@dataclass" if eq else "@dataclass(eq=False)")
         lines.append(f"class {c['name']}{base}:")
         if not c["fields"]:
@@ -203,17 +204,38 @@ def unload(mod):
 def all_fields(ir, i) -> List[Dict[str, Any]]:
     """dataclass fields of class i in dataclass order: inherited first"""
     c = ir["classes"][i]
-    inherited = all_fields(ir, c["base"]) if c["base"] is not None else []
+    inherited = []
+    # dataclass order follows the reversed MRO: the second base (a mix-in without bases of its own) comes first
+    for b in (c.get("base2"), c["base"]):
+        if b is not None:
+            seen = {f["name"] for f in inherited}
+            inherited += [f for f in all_fields(ir, b) if f["name"] not in seen]
     own = {f["name"] for f in c["fields"]}
     return [f for f in inherited if f["name"] not in own] + list(c["fields"])
 
 
 def ancestors(ir, i) -> List[int]:
+    """the chain of first bases (what joined-table inheritance mirrors)"""
     out = []
     b = ir["classes"][i]["base"]
     while b is not None:
         out.append(b)
         b = ir["classes"][b]["base"]
+    return out
+
+
+def direct_bases(ir, i) -> List[int]:
+    c = ir["classes"][i]
+    return [b for b in (c["base"], c.get("base2")) if b is not None]
+
+
+def all_ancestors(ir, i) -> List[int]:
+    """every class i inherits from, through first and second bases"""
+    out = []
+    for b in direct_bases(ir, i):
+        for a in [b] + all_ancestors(ir, b):
+            if a not in out:
+                out.append(a)
     return out
 
 
@@ -241,7 +263,7 @@ def classify(t) -> Dict[str, Any]:
 @st.composite
 def model_ir(draw, max_classes=6, grammar="diagram", allow_self=True, allow_ext=True, allow_type=True,
              allow_seq=True, allow_set=True, allow_self_collection=True, allow_underscore=True, require_builtin=False,
-             allow_mutual=True, extras=False, uid=False):
+             allow_mutual=True, extras=False, uid=False, allow_mixin=False):
     """grammar: "diagram" (C17: everything) or "orm" (C06: the documented modelling rules)"""
     n = draw(st.integers(1, max_classes))
     classes = []
@@ -249,12 +271,22 @@ def model_ir(draw, max_classes=6, grammar="diagram", allow_self=True, allow_ext=
         base = None
         if i > 0 and draw(st.sampled_from([0, 0, 1, 1, 1])):
             base = draw(st.integers(0, i - 1))
+        base2 = None
+        if allow_mixin and base is not None and draw(st.sampled_from([0, 0, 1])):
+            # a second base: a class without bases of its own that the first base does not already inherit from
+            partial = {"classes": classes}
+            cands = [j for j in range(i) if classes[j]["base"] is None and classes[j].get("base2") is None
+                     and j != base and j not in all_ancestors(partial, base)]
+            if cands:
+                base2 = draw(st.sampled_from(cands))
         classes.append({"name": f"C{i}", "base": base, "fields": []})
+        if base2 is not None:
+            classes[-1]["base2"] = base2
     used_names = [set() for _ in range(n)]
 
     def inherited_names(i):
         out = set()
-        for a in ancestors({"classes": classes}, i):
+        for a in all_ancestors({"classes": classes}, i):
             out |= used_names[a]
         return out
 
